@@ -1762,4 +1762,296 @@ theorem replaceBlock_old_children_detached (s : St) (h : WFL s) (b r : Nat) (hr 
       rw [i4 c hkb] at h1; cases h1
     · exact h2.2
 
+
+/-! ### trees with FALSY nodes (`NullComponent.__bool__` is False); predicate-less and typed queries -/
+
+/-- with a checker handed in, Python's `filter` never looks at the truthiness of an item -/
+theorem pyFilter_some (t : Nat → Bool) (f : Nat → Bool) (l : List Nat) : pyFilter t (some f) l = l.filter f := rfl
+
+/-- `_iterChildren` as the code spells it (Python `filter(checker, self)`) with a checker = the `iterC` of the
+specs, whatever the truthiness of the nodes -/
+theorem iterCpy_some (s : St) (chk : Nat → Bool) : ∀ (fuel : Nat) (deep : Bool) (g : Int) (n : Nat),
+    iterCpy s fuel deep g (some chk) n = iterC s fuel deep g chk n
+  | 0, _, _, _ => rfl
+  | f + 1, deep, g, n => by
+    have ih := fun c => iterCpy_some s chk f deep (g - 1) c
+    unfold iterCpy iterC
+    simp only [pyFilter, ih]
+
+/-- **a query WITHOUT a predicate** (`getChildren()`, `getChildren(deep=True)`, `generationNum=k`, `iterChildren()`)
+is the traversal with the always-true checker: every theorem about `iterC … (fun _ => true)` (generation spec,
+deep membership / once / order) applies to it on trees with falsy nodes -/
+theorem iterChildrenP_nopred (s : St) (fuel : Nat) (deep : Bool) (g : Int) (n : Nat) :
+    iterChildrenP s fuel deep g none n = iterChildren s fuel deep g (fun _ => true) n := by
+  unfold iterChildrenP iterChildren
+  simp only [iterCpy_some]
+
+theorem iterChildrenP_pred (s : St) (fuel : Nat) (deep : Bool) (g : Int) (p : Nat → Bool) (n : Nat) :
+    iterChildrenP s fuel deep g (some p) n = iterChildren s fuel deep g p n := by
+  unfold iterChildrenP iterChildren
+  simp only [iterCpy_some]
+
+private theorem iterC_truthy (s : St) (t : Nat → Bool) (chk : Nat → Bool) : ∀ (fuel : Nat) (deep : Bool) (g : Int) (n : Nat),
+    iterC { s with truthy := t } fuel deep g chk n = iterC s fuel deep g chk n
+  | 0, _, _, _ => rfl
+  | f + 1, deep, g, n => by
+    have ih := fun c => iterC_truthy s t chk f deep (g - 1) c
+    unfold iterC
+    simp only [ih]
+
+/-- **no traversal query depends on the truthiness of any node**: changing `bool(·)` of arbitrary nodes changes
+no answer (predicate or not, any depth arguments) -/
+theorem iterChildrenP_ignores_truthiness (s : St) (t : Nat → Bool) (fuel : Nat) (deep : Bool) (g : Int)
+    (pred : Option (Nat → Bool)) (n : Nat) :
+    iterChildrenP { s with truthy := t } fuel deep g pred n = iterChildrenP s fuel deep g pred n := by
+  cases pred with
+  | none => rw [iterChildrenP_nopred, iterChildrenP_nopred]; unfold iterChildren; rw [iterC_truthy]
+  | some p => rw [iterChildrenP_pred, iterChildrenP_pred]; unfold iterChildren; rw [iterC_truthy]
+
+/-- **`getChildren()` is the raw child list** (falsy children included), any positive fuel -/
+theorem getChildren_direct (s : St) (f : Nat) (n : Nat) : getChildren s (f + 1) false 1 none n = some (s.kids n) := by
+  unfold getChildren
+  rw [iterChildrenP_nopred]
+  simp [iterChildren, iterC]
+
+/-- **`getChildren(generationNum = k+1)` without predicate = the depth-(k+1) level of the naive walk** -/
+theorem getChildren_gen_spec (s : St) (k fuel n : Nat) (hk : k < fuel) :
+    getChildren s fuel false ((k : Int) + 1) none n = some (level s (k + 1) n) := by
+  unfold getChildren
+  rw [iterChildrenP_nopred]
+  simp [iterChildren, iterC_gen_spec s k fuel n hk]
+
+/-- **`getChildren(deep=True)` without predicate returns exactly the objects of the naive pre-order walk**, each
+with the same multiplicity (once, by `iterC_deep_nodup`, in a well-formed acyclic tree) -/
+theorem getChildren_deep_spec (s : St) (fuel n : Nat) :
+    ∃ l, getChildren s fuel true 1 none n = some l ∧ l.Perm (preWalk s fuel n) := by
+  refine ⟨iterC s fuel true 1 (fun _ => true) n, ?_, iterC_deep_perm_preWalk s fuel 1 n⟩
+  unfold getChildren
+  rw [iterChildrenP_nopred]
+  simp [iterChildren]
+
+
+/-- **the deep query in every reachable state, no fuel hypothesis**: in a well-formed acyclic live forest (`WFL`, what
+`wfl_run` gives for every history) `getChildren(deep=True)` called without a predicate on ANY object, with the fuel the
+driver uses, returns a duplicate-free list whose members are exactly the strict descendants (falsy ones included) -/
+theorem getChildren_deep_iff (s : St) (h : WFL s) (n : Nat) :
+    ∃ l, getChildren s (s.next + 1) true 1 none n = some l ∧ l.Nodup ∧ ∀ m, m ∈ l ↔ Desc s n m := by
+  obtain ⟨hi, ⟨d, hd⟩, hl⟩ := h
+  refine ⟨iterC s (s.next + 1) true 1 (fun _ => true) n, ?_, iterC_deep_nodup s d hi hd _ _ _, ?_⟩
+  · unfold getChildren
+    rw [iterChildrenP_nopred]
+    simp [iterChildren]
+  · intro m
+    constructor
+    · exact iterC_deep_sound s _ _ n m
+    · intro hm
+      obtain ⟨k, hk⟩ := desc_descN s d hi hd hm
+      have := depth_bound s d hi hd hl hk
+      exact iterC_deep_complete s k _ 1 n m hk (by omega)
+
+/-- the same for a generation query: in a reachable state the fuel the driver uses is enough for EVERY generation that
+has any member (deeper generations are empty on both sides) -/
+theorem getChildren_gen_reachable (s : St) (k n : Nat) (hk : k < s.next + 1) :
+    getChildren s (s.next + 1) false ((k : Int) + 1) none n = some (level s (k + 1) n) :=
+  getChildren_gen_spec s k (s.next + 1) n hk
+
+/-- the two-node tree `0 ── 1` whose child is FALSY (a NullComponent) -/
+private def wFalsy : St := (cAdd (newNode (newNode St.empty 0 0 0 false) kComponent 0 0 false false) 0 1).1
+
+/-- **why the checker matters**: handing `None` through to `filter` (`filter(None, self)`) drops the falsy child, so
+the answer is no longer the child list; the code as written (`checker = lambda _: True`) returns it -/
+theorem filterNone_drops_falsy :
+    iterCpy wFalsy 2 false 1 none 0 = [] ∧ wFalsy.kids 0 = [1] ∧ getChildren wFalsy 2 false 1 none 0 = some [1] := by
+  decide
+
+/-- **`removeAll` as written walks `getChildren()`; that is the raw child list**, so `removeAll_inv` (all children
+detached, list empty) holds for the code's loop on trees with falsy nodes -/
+theorem removeAllCode_eq (s : St) (p : Nat) : removeAllCode s p = removeAll s p := by
+  unfold removeAllCode removeAll
+  rw [getChildren_direct]
+  rfl
+
+theorem setChildrenCode_eq (s : St) (p : Nat) (items : List Nat) : setChildrenCode s p items = setChildren s p items := by
+  unfold setChildrenCode setChildren
+  rw [removeAllCode_eq]
+
+/-- **`getChildrenWithFlags`** = the child list filtered by `hasFlags`, in child order -/
+theorem getChildrenWithFlags_spec (s : St) (f : Nat) (spec : Spec) (exact : Bool) (n : Nat) :
+    getChildrenWithFlags s (f + 1) spec exact n = (s.kids n).filter (fun o => hasFlags (s.flags o) spec exact) := by
+  unfold getChildrenWithFlags
+  rw [iterChildrenP_pred]
+  simp [iterChildren, iterC]
+
+/-- **`getChildrenOfType`** = the child list filtered by type name -/
+theorem getChildrenOfType_spec (s : St) (f : Nat) (t : Nat) (n : Nat) :
+    getChildrenOfType s (f + 1) t n = (s.kids n).filter (fun o => s.typ o == t) := by
+  unfold getChildrenOfType
+  rw [iterChildrenP_pred]
+  simp [iterChildren, iterC]
+
+/-- **`Assembly.getFirstBlock()`** (no type spec) = the first child, falsy or not -/
+theorem getFirstBlock_none (s : St) (fuel : Nat) (exact : Bool) (n : Nat) :
+    getFirstBlock s fuel Spec.none exact n = (s.kids n).head? := rfl
+
+/-- **`Assembly.getFirstBlock(spec, exact)`** = the first child with the flags -/
+theorem getFirstBlock_spec (s : St) (f : Nat) (spec : Spec) (exact : Bool) (n : Nat) (h : spec ≠ Spec.none) :
+    getFirstBlock s (f + 1) spec exact n = (s.kids n).find? (fun o => hasFlags (s.flags o) spec exact) := by
+  unfold getFirstBlock
+  cases spec with
+  | none => exact absurd rfl h
+  | one v => simp only; rw [getChildrenWithFlags_spec, List.head?_filter]
+  | many vs => simp only; rw [getChildrenWithFlags_spec, List.head?_filter]
+
+/-- **`Assembly.getFirstBlockByType`** = the first child of that type -/
+theorem getFirstBlockByType_spec (s : St) (t : Nat) (n : Nat) :
+    getFirstBlockByType s t n = (s.kids n).find? (fun o => s.typ o == t) := by
+  unfold getFirstBlockByType
+  rw [pyFilter_some, List.head?_filter]
+
+/-- **`getAncestorWithFlags`** (its own recursion) = the object `getAncestorAndDistance(hasFlags …)` finds: with
+`getAncestor_spec` the nearest object on the parent chain having the flags -/
+theorem getAncestorWithFlags_eq (s : St) (spec : Spec) (exact : Bool) : ∀ (fuel n d : Nat),
+    getAncestorWithFlags s fuel spec exact n =
+      (getAncestor s fuel (fun o => hasFlags (s.flags o) spec exact) n d).map Prod.fst
+  | 0, _, _ => rfl
+  | f + 1, n, d => by
+    unfold getAncestorWithFlags getAncestor
+    by_cases hf : hasFlags (s.flags n) spec exact = true
+    · simp [hf]
+    · simp only [hf, if_false]
+      cases hp : s.parent n with
+      | none => simp
+      | some p => simp only; exact getAncestorWithFlags_eq s spec exact f p (d + 1)
+
+/-- a copy carries the truthiness of its originals (a copied NullComponent is a NullComponent) -/
+theorem copy_truthy (s : St) (L : List Nat) (o : Nat) (ho : o ∈ L) :
+    (copyWith s L).truthy (ren s L o) = s.truthy o := by
+  have hl := List.idxOf_lt_length_of_mem ho
+  have h1 : (decide (s.next ≤ ren s L o) && decide (ren s L o < s.next + L.length)) = true := by
+    simp [ren]; omega
+  simp only [copyWith, h1, if_true]
+  have : ren s L o - s.next = L.idxOf o := by simp [ren]
+  rw [this, getD_idx L o ho]
+
+
+/-! ### ex-core systems: `ExcoreStructure.add` / `SpentFuelPool.add`, discharge from the core into the pool -/
+
+private theorem anc_setLoc (s : St) (c : Nat) (v : Option Nat) (a x : Nat) : Anc (setLoc s c v) a x ↔ Anc s a x := by
+  constructor
+  · intro h; induction h with
+    | refl => exact Anc.refl
+    | step hp _ ih => exact Anc.step (s := s) hp ih
+  · intro h; induction h with
+    | refl => exact Anc.refl
+    | step hp _ ih => exact Anc.step (s := setLoc s c v) hp ih
+
+private theorem wfl_setLoc (s : St) (c : Nat) (v : Option Nat) (h : WFL s) : WFL (setLoc s c v) :=
+  ⟨inv_of_eq (s := s) rfl rfl h.1, acyclic_of_eq (s := s) rfl h.2.1, h.2.2⟩
+
+/-- an ex-core add is the class-dispatched `add` (plain `Composite.add` for a pool) after the locator moved -/
+theorem excoreAdd_eq_add (s : St) (p c : Nat) (hk : s.kind p = kSfp) :
+    excoreAdd s p c = add (setLoc s c (s.grid p)) p c := by
+  unfold excoreAdd add
+  have h1 : (setLoc s c (s.grid p)).kind p = kSfp := hk
+  simp [h1, kSfp, kAssembly, kCore]
+
+/-- removing a child only shrinks the ancestor relation -/
+private theorem anc_cRemove (s : St) (p c a x : Nat) (h : Anc (cRemove s p c).1 a x) : Anc s a x := by
+  induction h with
+  | refl => exact Anc.refl
+  | @step y q hp _ ih =>
+    by_cases e : y = c
+    · subst e
+      have : (cRemove s p y).1.parent y = none := by unfold cRemove; split <;> simp [setKids, setLoc, setParent]
+      rw [this] at hp; cases hp
+    · rw [cRemove_parent_other s p c y e] at hp; exact Anc.step hp ih
+
+/-- the edit alphabet with the ex-core edits -/
+inductive Op2 where
+  | base (op : Op)
+  | excoreAdd (p c : Nat)
+  | discharge (core a : Nat) (sfp : Option Nat)
+
+def step2 (s : St) : Op2 → St
+  | .base op => step s op
+  | .excoreAdd p c => (excoreAdd s p c).1
+  | .discharge core a sfp => (removeAssembly s core a sfp).1
+
+/-- valid use: an object put into a pool is live, parentless and not above the pool; a discharged assembly is a child
+of the core it leaves and not above the pool it goes to -/
+def PreL2 (s : St) : Op2 → Prop
+  | .base op => PreL s op
+  | .excoreAdd p c => s.kind p = kSfp ∧ p < s.next ∧ c < s.next ∧ s.parent c = none ∧ ¬ Anc s c p
+  | .discharge core a sfp => a ∈ s.kids core ∧ ∀ p, sfp = some p → s.kind p = kSfp ∧ p < s.next ∧ ¬ Anc s a p
+
+theorem wfl_excoreAdd (s : St) (p c : Nat) (h : WFL s) (hk : s.kind p = kSfp) (hp : p < s.next) (hc : c < s.next)
+    (hpar : s.parent c = none) (hcyc : ¬ Anc s c p) : WFL (excoreAdd s p c).1 := by
+  rw [excoreAdd_eq_add s p c hk]
+  exact wfl_step (setLoc s c (s.grid p)) (.add p c) (wfl_setLoc s c _ h)
+    ⟨hp, hc, hpar, fun ha => hcyc ((anc_setLoc s c _ c p).mp ha)⟩
+
+/-- **what a discharge does to the tree**: the assembly leaves the core's list; without a pool it ends parentless
+with a detached locator (`remove_detaches`); with a pool it is listed by the pool (and by nobody else), its parent is
+the pool and its locator sits on the pool's grid -/
+theorem discharge_spec (s : St) (core a : Nat) (h : Inv s) (ha : a ∈ s.kids core) :
+    (removeAssembly s core a none).2 = true ∧ (removeAssembly s core a none).1.parent a = none ∧
+      (removeAssembly s core a none).1.loc a = none ∧ (∀ q, a ∉ (removeAssembly s core a none).1.kids q) ∧
+    ∀ p, (removeAssembly s core a (some p)).2 = true ∧ (removeAssembly s core a (some p)).1.parent a = some p ∧
+      (removeAssembly s core a (some p)).1.loc a = s.grid p ∧ a ∈ (removeAssembly s core a (some p)).1.kids p ∧
+      (p ≠ core → a ∉ (removeAssembly s core a (some p)).1.kids core) := by
+  obtain ⟨r1, r2, r3, _, r5⟩ := remove_detaches s core a h ha
+  refine ⟨?_, ?_, ?_, ?_, ?_⟩
+  · simp [removeAssembly, r1]
+  · simp [removeAssembly, r1, r2]
+  · simp [removeAssembly, r1, r3]
+  · intro q; simp only [removeAssembly, r1, if_true]; exact r5 q
+  · intro p
+    have hnot : a ∉ (remove s core a).1.kids p := r5 p
+    have hg : (remove s core a).1.grid p = s.grid p := by unfold remove cRemove; simp [ha, setKids, setLoc, setParent]
+    have hnot' : a ∉ (setLoc (remove s core a).1 a ((remove s core a).1.grid p)).kids p := hnot
+    simp only [removeAssembly, r1, if_true, excoreAdd, cAdd, hnot', if_false]
+    refine ⟨trivial, by simp [setKids, setParent, setLoc], by simp [setKids, setParent, setLoc, hg], by simp [setKids, setParent, setLoc], ?_⟩
+    intro hne
+    have : a ∉ (remove s core a).1.kids core := r5 core
+    simpa [setKids, setParent, setLoc, hne.symm] using this
+
+theorem wfl_step2 (s : St) (op : Op2) (h : WFL s) (hp : PreL2 s op) : WFL (step2 s op) := by
+  cases op with
+  | base op => exact wfl_step s op h hp
+  | excoreAdd p c => exact wfl_excoreAdd s p c h hp.1 hp.2.1 hp.2.2.1 hp.2.2.2.1 hp.2.2.2.2
+  | discharge core a sfp =>
+    obtain ⟨ha, hs⟩ := hp
+    have hlive := h.2.2 core a ha
+    have h1 : WFL (remove s core a).1 := wfl_step s (.remove core a) h ha
+    obtain ⟨r1, r2, _, _, _⟩ := remove_detaches s core a h.1 ha
+    cases sfp with
+    | none => simpa [step2, removeAssembly, r1] using h1
+    | some p =>
+      obtain ⟨hk, hpn, hcyc⟩ := hs p rfl
+      have hk' : (remove s core a).1.kind p = kSfp := by
+        unfold remove cRemove; simp [ha, setKids, setLoc, setParent]; exact hk
+      have hn : (remove s core a).1.next = s.next := by unfold remove cRemove; simp [ha, setKids, setLoc, setParent]
+      simp only [step2, removeAssembly, r1, if_true]
+      exact wfl_excoreAdd _ p a h1 hk' (by omega) (by omega) r2 (fun hA => hcyc (anc_cRemove s core a a p hA))
+
+def PreAllL2 : St → List Op2 → Prop
+  | _, [] => True
+  | s, op :: rest => PreL2 s op ∧ PreAllL2 (step2 s op) rest
+
+/-- **every reachable state, ex-core edits included** (putting objects into a spent fuel pool / ex-core structure,
+discharging assemblies from the core into the pool, in any order with all the other edits, copies and pickles): a
+well-formed, acyclic forest of live objects -/
+theorem wfl_run2 : ∀ (ops : List Op2) (s : St), WFL s → PreAllL2 s ops → WFL (ops.foldl step2 s)
+  | [], _, h, _ => h
+  | op :: rest, s, h, hp => wfl_run2 rest (step2 s op) (wfl_step2 s op h hp.1) hp.2
+
+/-- non-vacuity: reactor-less miniature -- core 0, pool 1, assembly 2 in the core, discharged into the pool -/
+example : PreAllL2 St.empty
+    [.base (.new kCore 0 0 true), .base (.new kSfp 0 0 true), .base (.new kAssembly 0 0 true), .base (.add 0 2),
+     .discharge 0 2 (some 1), .base (.remove 1 2), .excoreAdd 1 2] := by
+  refine ⟨?_, ?_, ?_, ?_, ?_, ?_, ?_, trivial⟩ <;>
+    simp [PreL2, PreL, PreA, Pre, step2, step, newNode, St.empty, add, cAdd, kCore, kAssembly, kBlock, kSfp, setKids,
+      setParent, setLoc, removeAssembly, remove, cRemove, excoreAdd]
+  all_goals (try (intro h; cases h <;> simp_all))
+
 end ArmiVerif.Tree
